@@ -123,11 +123,11 @@ func RunTcbLevelsCase(cs map[string]any, id int, seed int64) Result {
 	}
 	msg := MsgFromQuote(c.Q)
 	opts := VerifyOpts(c, map[string]any{"gc": true, "cr": false, "now": "set"})
-	out := Guard(15*time.Second, func() error { return verify.TdxQuote(msg, opts) })
+	out := Guard(120*time.Second, func() error { return verify.TdxQuote(msg, opts) })
 	report, reportStatus := "none", ""
 	if kind == "tcb" && out.Panic == "" && !out.Timeout {
 		var lvl pcs.TcbLevel
-		o2 := Guard(15*time.Second, func() error {
+		o2 := Guard(120*time.Second, func() error {
 			var err error
 			lvl, _, err = verify.SupportedTcbLevelsFromCollateral(msg, opts)
 			return err
